@@ -52,14 +52,22 @@ def gen_case(rng):
     n = int(rng.integers(3, 15)) if rng.random() < .3 else int(gens.pick(rng, [16, 40, 100, 300]))
     if eo['interp_method'] != 'splrep':
         n = min(n, 150)
-    return {'kind': 'gni', 'family': kind, 'x': gens.signal(rng, kind, n), 'opts': rand_opts(rng),
-            'envelope_opts': eo, 'extrema_opts': gens.ext_opts(rng)}
+    x = gens.signal(rng, kind, n)
+    xp, _, tag = gens.present(rng, x, p_plain=.8)
+    if tag == 'strided':
+        xp = x
+    return {'kind': 'gni', 'family': kind, 'x': xp, 'opts': rand_opts(rng),
+            'envelope_opts': eo, 'extrema_opts': gens.ext_opts(rng), 'presentation': tag}
 
 
 def check_case(ctx, case):
     from emd import sift as S
     from emd.support import EMDSiftCovergeError
-    x = np.asarray(case['x'], dtype=float)
+    xin = np.asarray(case['x'])
+    if case.get('presentation') == 'strided':
+        xin, _ = gens.relayout(None, xin, 'strided')
+    x = np.asarray(xin, dtype=float)
+    ctx.count('presentation:' + case.get('presentation', 'plain'))
     opts = dict(case['opts'])
     eo, xo = case['envelope_opts'], case['extrema_opts']
     dig = digest(x, opts, eo, xo)
@@ -94,7 +102,7 @@ def check_case(ctx, case):
     xo_shared = SHARED.setdefault(('x', repr(sorted(xo.items()))), dict(xo))
     try:
         with probe, watchdog(60):
-            out, flag = S.get_next_imf(x.copy(), envelope_opts=eo_shared, extrema_opts=xo_shared, **opts)
+            out, flag = S.get_next_imf(xin if case.get('presentation') == 'strided' else xin.copy(), envelope_opts=eo_shared, extrema_opts=xo_shared, **opts)
         got = 'ret'
     except WatchdogTimeout:
         ctx.count('watchdog')
@@ -224,7 +232,8 @@ def neighbours(rng, case, k=3):
     out = []
     for _ in range(k):
         c = dict(case)
-        x = np.asarray(case['x'])
+        c.pop('presentation', None)
+        x = np.asarray(case['x'], dtype=float)
         c['x'] = x + rng.standard_normal(len(x)) * np.abs(x).max() * float(gens.pick(rng, [1e-4, 1e-3, 1e-2]))
         if rng.random() < .3:
             c['opts'] = dict(case['opts'], env_step_size=float(gens.pick(rng, [1, .7, .3])))
